@@ -14,7 +14,12 @@ use std::time::Duration;
 fn regexy_rule(r: &mut Rng) -> String {
     // wildcard / separator heavy rules (they go through the regex cache), many of them tagged
     let t = r.pick(&["adframe", "adimg", "track", "px"]);
-    let body = match r.below(8) {
+    // (5/8, 4/9 and 1/10 are twins: the same pattern text with different anchors — whatever identifies a
+    // compiled regex has to tell them apart)
+    let body = match r.below(11) {
+        8 => format!("/{}*.png", t),
+        9 => format!("https://cdn.test/*{}", t),
+        10 => format!("/{}^*x|", t),
         0 => format!("/{}/*.gif", t),
         1 => format!("/{}^*x", t),
         2 => format!("||cdn.test^*{}", t),
@@ -36,6 +41,24 @@ fn regexy_rule(r: &mut Rng) -> String {
     }
     let exc = r.pct(20);
     format!("{}{}{}{}", if exc { "@@" } else { "" }, body, if opts.is_empty() { "" } else { "$" }, opts.join(","))
+}
+
+/// Rules that are stored under several tokens at once: no pattern token and one `domain=` value per
+/// bucket (every listed domain must reach the rule), next to single-domain rules that fill the same
+/// buckets first.
+fn multi_group_rule(r: &mut Rng) -> String {
+    let doms = ["shop.test", "cdn.test", "sub.shop.test", "other.net", "news.com"];
+    let ty = r.pick(&["script", "image", "xhr", "document", "websocket", "font"]);
+    let k = 1 + r.below(3);
+    let mut ds: Vec<&str> = vec![];
+    while ds.len() < k {
+        let d = r.pick(&doms);
+        if !ds.contains(&d) {
+            ds.push(d);
+        }
+    }
+    let pat = r.pick(&["*", "", "*", "|https://", "/x^*k"]);
+    format!("{}{}${},domain={}", if r.pct(20) { "@@" } else { "" }, pat, ty, ds.join("|"))
 }
 
 fn is_complete_regex(line: &str) -> bool {
@@ -61,6 +84,15 @@ pub fn run(seed: u64, n: usize, out: &mut Out, focus_tags: bool) {
         let o = gen::ClusterOpts { badfilter: !focus_tags && r.pct(30), removeparam: !focus_tags, ..gen::ALL_ON };
         if r.pct(60) {
             lines.extend(gen::cluster(&mut r, &o));
+        }
+        for _ in 0..r.below(3) {
+            lines.push(multi_group_rule(&mut r));
+        }
+        if r.pct(40) {
+            // anchor twins in one list (see `regexy_rule`)
+            let t = r.pick(&["adframe", "adimg", "track", "px"]);
+            lines.push(format!("/{}*.png|$image", t));
+            lines.push(format!("{}/{}*.png{}", if r.pct(30) { "@@" } else { "" }, t, r.pick(&["", "$script", "$image", "$tag=t1"])));
         }
         if focus_tags {
             // every taggable category: blocking, exception, important, csp
@@ -88,6 +120,7 @@ pub fn run(seed: u64, n: usize, out: &mut Out, focus_tags: bool) {
             continue;
         }
         let mut hist: Vec<serde_json::Value> = vec![json!({"new": accepted, "optimize": optimize})];
+        crate::c11::emit_plines(out, &accepted);
         let dumps: Vec<String> = parse_all(&accepted).iter().map(|p| dump_rule(&p.f, false)).collect();
         out.case(&format!("hnew\t{}\t{}", if optimize { 1 } else { 0 }, dumps.join("\t")), "ok", json!({"history": hist.clone()}), false);
         let mut tags: BTreeSet<String> = BTreeSet::new();
@@ -154,11 +187,14 @@ pub fn run(seed: u64, n: usize, out: &mut Out, focus_tags: bool) {
                     // a $generichide exception added incrementally (its own list in the blocker)
                     saw_generichide = true;
                     format!("@@||{}^$generichide", r.pick(&["cdn.test", "a.test", "x.test", "news.com"]))
+                } else if r.pct(25) {
+                    multi_group_rule(&mut r)
                 } else if r.pct(60) { regexy_rule(&mut r) } else { gen::cluster(&mut r, &o).pop().unwrap() };
                 if is_complete_regex(&line) {
                     continue;
                 }
                 if let Some(f) = parse_net(&line, true) {
+                    crate::c11::emit_plines(out, std::slice::from_ref(&line));
                     let res = engine.verif_blocker_mut().add_filter(f.clone());
                     hist.push(json!({"add_filter": line, "ok": res.is_ok()}));
                     if res.is_ok() {
@@ -200,7 +236,7 @@ pub fn run(seed: u64, n: usize, out: &mut Out, focus_tags: bool) {
                 // query
                 let (mut u, s, t) = gen::cluster_url(&mut r, &accepted);
                 if r.pct(35) {
-                    u = format!("https://cdn.test/{}", r.pick(&["x1", "x2", "adframe/a.gif", "adimg/x/click?u=1", "track/x", "px/a.png", "adframe^x", "a/adimg.png", "adframe/a", "adframe/b", "adframe/c", "adframe/d", "adimg/a", "adimg/b", "adimg/c", "adimg/d"]));
+                    u = format!("https://cdn.test/{}", r.pick(&["x1", "x2", "adframe/a.gif", "adimg/x/click?u=1", "track/x", "px/a.png", "px/a.png?v=1", "adimg/b.png/more", "track/q.png", "track/q.png;x", "adframe/z.png", "adframe/z.png?", "adframe^x", "a/adimg.png", "adframe/a", "adframe/b", "adframe/c", "adframe/d", "adimg/a", "adimg/b", "adimg/c", "adimg/d"]));
                 }
                 if !u.is_ascii() {
                     continue;
